@@ -781,11 +781,63 @@ def escape_maps(mod: Module, fn: ast.AST, min_chain: int = 2, within: Optional[l
     return out
 
 
+def dispatch_implementations(mod: Module) -> dict[str, list[tuple[str, ast.AST]]]:
+    """the functions a call of a `functools.singledispatch` / `singledispatchmethod` generic can evaluate to besides the generic's own body:
+    qualified name of the generic -> [(qualified name, FunctionDef)] of everything registered on it in the module - a def decorated with
+    `@G.register` / `@G.register(T)` in the scope of G (module level, or the same class body), or handed over in a statement
+    `G.register(T, f)` / `G.register(T)(f)`.  A generic is a def of that scope decorated with (functools.)singledispatch(method)."""
+    out: dict[str, list[tuple[str, ast.AST]]] = {}
+
+    def is_generic(f: ast.AST) -> bool:
+        return any(norm(d).split(".")[-1] in ("singledispatch", "singledispatchmethod") for d in getattr(f, "decorator_list", []))
+
+    def scope(body: list[ast.stmt], prefix: str) -> None:
+        fdefs = [st for st in body if isinstance(st, (ast.FunctionDef, ast.AsyncFunctionDef))]
+        generics = {f.name for f in fdefs if is_generic(f)}
+        if generics:
+            by_name = {}
+            for f in fdefs:
+                by_name.setdefault(f.name, []).append(f)
+
+            def reg_target(e: ast.AST) -> Optional[str]:
+                """G for the expressions `G.register` and `G.register(...)`"""
+                if isinstance(e, ast.Call):
+                    e = e.func
+                if isinstance(e, ast.Attribute) and e.attr == "register" and isinstance(e.value, ast.Name) and e.value.id in generics:
+                    return e.value.id
+                return None
+
+            for f in fdefs:
+                for d in f.decorator_list:
+                    g_ = reg_target(d)
+                    if g_ is not None:
+                        out.setdefault(prefix + g_, []).append((prefix + f.name, f))
+            for st in body:
+                if isinstance(st, ast.Expr) and isinstance(st.value, ast.Call):
+                    c = st.value
+                    g_ = reg_target(c.func) if not (isinstance(c.func, ast.Attribute) and c.func.attr == "register") else reg_target(c)
+                    if g_ is None:
+                        continue
+                    for a in c.args:
+                        if isinstance(a, ast.Name) and a.id in by_name and a.id not in generics:
+                            for f in by_name[a.id]:
+                                out.setdefault(prefix + g_, []).append((prefix + f.name, f))
+        for st in body:
+            if isinstance(st, ast.ClassDef):
+                scope(st.body, prefix + st.name + ".")
+
+    scope(mod.tree.body, "")
+    return out
+
+
 def module_call_closure(mod: Module, roots: list[str]) -> list[str]:
     """qualified names of the functions of `mod` reachable from `roots` through calls by plain name of module-level functions and
-    `self.m()` calls of methods of the same class (roots first, then in order of discovery)"""
+    `self.m()` calls of methods of the same class (roots first, then in order of discovery).  A call of a single-dispatch generic can
+    evaluate to every implementation registered on it (dispatch_implementations): those are reached with the generic; an implementation
+    whose name the module re-uses (`def _(x)`) is walked for the calls it makes as part of the generic."""
     seen: list[str] = []
     todo = [r for r in roots if mod.has(r)]
+    impls = dispatch_implementations(mod)
     while todo:
         q = todo.pop(0)
         if q in seen:
@@ -793,7 +845,13 @@ def module_call_closure(mod: Module, roots: list[str]) -> list[str]:
         seen.append(q)
         f = mod.defs[q]
         cls = q.rsplit(".", 1)[0] if "." in q else None
-        for c in ast.walk(f):
+        bodies = [f]
+        for q2, f2 in impls.get(q, []):
+            if mod.has(q2) and mod.defs[q2] is f2:
+                todo.append(q2)
+            else:
+                bodies.append(f2)
+        for c in (x for b in bodies for x in ast.walk(b)):
             if not isinstance(c, ast.Call):
                 continue
             if isinstance(c.func, ast.Name) and mod.has(c.func.id) and isinstance(mod.defs[c.func.id], (ast.FunctionDef, ast.AsyncFunctionDef)):
@@ -1016,4 +1074,53 @@ def validators_of(mod: Module, fn: ast.AST, call: ast.Call, arg: Optional[ast.ex
         if r is None:
             return None
         out |= r
+    return out
+
+
+# --------------------------------------------------------------------------- referrer counters of a recursive serializer, by role
+
+
+def referrer_counters(repo: Repo, cls_full: str, entry: str = "preprocess") -> set[str]:
+    """the attributes `self.<A>` in which a serializer class counts how often a node is referred to: some method that the public
+    preprocessing pass (`entry`, resolved along the MRO; every override of a method it reaches counts, since a subclass hook may call
+    super()) reaches through self / super() adds a positive constant to `self.<A>[<node>]` - `self.A[x] += 1` or
+    `self.A[x] = self.A[x] + 1`.  The attribute is found by what is done to it, not by its name."""
+    cg = ClassGraph(repo, cls_full)
+    start = cg.resolve(entry)
+    if start is None:
+        return set()
+    succ: dict = {}
+    for a, _, b in cg.edges:
+        succ.setdefault(a, set()).add(b)
+    seen = {start}
+    todo = [start]
+    while todo:
+        v = todo.pop()
+        for w in succ.get(v, ()):
+            if w not in seen:
+                seen.add(w)
+                todo.append(w)
+    names = {m for _, m in seen}
+    out: set[str] = set()
+
+    def self_sub(t: ast.AST) -> Optional[str]:
+        if isinstance(t, ast.Subscript) and isinstance(t.value, ast.Attribute) and isinstance(t.value.value, ast.Name) and t.value.value.id == "self":
+            return t.value.attr
+        return None
+
+    def pos_const(e: ast.AST) -> bool:
+        return isinstance(e, ast.Constant) and type(e.value) is int and e.value > 0
+
+    for (c, m), (mod, f) in cg.defs.items():
+        if m not in names:
+            continue
+        for n in own_nodes(f):
+            if isinstance(n, ast.AugAssign) and isinstance(n.op, ast.Add) and pos_const(n.value):
+                a = self_sub(n.target)
+                if a is not None:
+                    out.add(a)
+            elif isinstance(n, ast.Assign) and len(n.targets) == 1 and isinstance(n.value, ast.BinOp) and isinstance(n.value.op, ast.Add):
+                a = self_sub(n.targets[0])
+                if a is not None and ((pos_const(n.value.right) and norm(n.value.left) == norm(n.targets[0])) or (pos_const(n.value.left) and norm(n.value.right) == norm(n.targets[0]))):
+                    out.add(a)
     return out
